@@ -2,8 +2,10 @@
 
 Pipeline (DESIGN.md 7/C06; shared machinery in lib/pathset_common.py):
   1. TLC exhaustive: MC_PathSet (universe A): LiveAtHandout, NoStarvation, CacheBound, IssueMapBound, IssueFifoBound,
-     RefetchWindow, NoWorkerPanic over every bounded history, for the timing core and for an issue-cache-focused
-     alphabet (3 distinct issues, cache size 2, reports inside and outside the dedup window).
+     RefetchWindow, NoWorkerPanic over every bounded history, for the timing core (three orderings of the constants
+     the config validator accepts, Late 0 and 1) and for an issue-cache-focused alphabet (3 distinct issues, cache
+     size 2, reports inside and outside the dedup window).  In the quick tier these runs are at the same time the
+     generators of step 2.
      Oracle self-checks: the manager as found at the pinned commit (FIX_EXPIRY = FALSE resp. FIX_FIFO = FALSE)
      must violate LiveAtHandout resp. IssueMapBound in the model.
   2. generation -> replay on the REAL path set / REAL PathIssueManager (sizes through the hook's accessors), P-monitors
@@ -35,35 +37,35 @@ def run(c):
     depth = 6 if thorough else 5
     exps = (1, 3)
     issue_cfg = {"max_cache": 1}
-    # ---- 1. exhaustive
-    pc.mc_run(c, "C06", "mc_A", u="A", depth=depth, exp_choices=exps, report_set=(1,), horizon=9)
-    if thorough:
-        pc.mc_run(c, "C06", "mc_A_exp3", u="A", depth=5, exp_choices=(1, 3, 6), report_set=(1,), horizon=9)
-    pc.mc_run(c, "C06", "mc_issue", u="A", cfg=issue_cfg, depth=depth + 1 if not thorough else depth + 2, exp_choices=(6,), report_set=(1, 2, 3), horizon=6, max_adv=2,
-              invariants=["IssueMapBound", "IssueFifoBound", "CacheBound", "NoWorkerPanic", "ActiveInCache", "IrrelevantReportNoChange"])
+    timing = list(pc.ALL_INVARIANTS)
+    issue_inv = ["IssueMapBound", "IssueFifoBound", "CacheBound", "NoWorkerPanic", "ActiveInCache", "IrrelevantReportNoChange"]
+    # ---- 1. oracle self-checks: the manager as found at the pinned commit must violate the invariants in the model
     pc.mc_run(c, "C06", "oracle_expiry", u="A", depth=5, exp_choices=(1, 3), report_set=(), horizon=9, fix_expiry=False,
               expect=["LiveAtHandout"], oracle=True)
     pc.mc_run(c, "C06", "oracle_fifo", u="A", cfg=issue_cfg, depth=6, exp_choices=(6,), report_set=(1, 2, 3), horizon=6, max_adv=2,
               fix_fifo=False, expect=["IssueMapBound", "IssueFifoBound"], oracle=True,
               invariants=["IssueMapBound", "IssueFifoBound"])
-    # other orderings of the constants the config validator accepts (min delay <= interval, min delay <= threshold;
-    # backoff unconstrained): backoff far beyond interval and lifetimes / threshold > interval = min delay, flat backoff
-    variants = {"v2": dict(cfg={"threshold": 1, "min_delay": 1, "interval": 2, "idle": 3, "backoff_min": 2, "backoff_max": 6}, exp_choices=(1, 2, 4)),
-                "v3": dict(cfg={"threshold": 3, "min_delay": 2, "interval": 2, "idle": 4, "backoff_min": 1, "backoff_max": 1, "backoff_factor": 1.0},
-                           exp_choices=(2, 4, 6))}
-    for vn, v in variants.items():
-        pc.mc_run(c, "C06", "mc_" + vn, u="A", depth=depth - 1, report_set=(), horizon=9, **v)
-    c.cov["exhaustive"] = True
-    # ---- 2. generation -> replay
+    if thorough:
+        pc.mc_run(c, "C06", "mc_A", u="A", depth=depth, exp_choices=exps, report_set=(1,), horizon=9)
+        pc.mc_run(c, "C06", "mc_A_exp3", u="A", depth=5, exp_choices=(1, 3, 6), report_set=(1,), horizon=9)
+        pc.mc_run(c, "C06", "mc_issue", u="A", cfg=issue_cfg, depth=depth + 2, exp_choices=(6,), report_set=(1, 2, 3), horizon=6, max_adv=2,
+                  invariants=issue_inv)
+    # ---- 2. exhaustive runs that are at the same time the generators of the replayed histories (one history per distinct
+    #         (state, last step)); other orderings of the constants the config validator accepts (min delay <= interval,
+    #         min delay <= threshold; backoff unconstrained) are v2 (backoff far beyond interval and lifetimes) and
+    #         v3 (threshold > interval = min delay, flat backoff below the min delay)
+    v2 = {"threshold": 1, "min_delay": 1, "interval": 2, "idle": 3, "backoff_min": 2, "backoff_max": 6}
+    v3 = {"threshold": 3, "min_delay": 2, "interval": 2, "idle": 4, "backoff_min": 1, "backoff_max": 1, "backoff_factor": 1.0}
     nrep, steps, nontriv, outcomes, spec_outcomes = 0, 0, set(), {}, {}
     gens = [
-        dict(name="gen_timing", depth=depth, exp_choices=exps, report_set=(), horizon=9),
-        dict(name="gen_timing_issue", depth=depth - 1, exp_choices=(1, 3), report_set=(1,), horizon=9),
-        dict(name="gen_late0", depth=depth - 1, exp_choices=(1, 3), report_set=(), horizon=9, late=0),
-        dict(name="gen_issue", cfg=issue_cfg, depth=depth + 1, exp_choices=(6,), report_set=(1, 2, 3), horizon=6, max_adv=2),
+        dict(name="gen_timing", depth=depth, exp_choices=exps, report_set=(), horizon=9, check=timing),
+        dict(name="gen_timing_issue", depth=depth, exp_choices=exps, report_set=(1,), horizon=9, check=timing),
+        dict(name="gen_late0", depth=depth - 1, exp_choices=exps, report_set=(), horizon=9, late=0, check=timing),
+        dict(name="gen_issue", cfg=issue_cfg, depth=depth + 1, exp_choices=(6,), report_set=(1, 2, 3), horizon=6, max_adv=2, check=issue_inv),
+        dict(name="gen_v2", cfg=v2, depth=depth - 1, exp_choices=(1, 4), report_set=(), horizon=9, check=timing),
+        dict(name="gen_v3", cfg=v3, depth=depth - 1, exp_choices=(2, 6), report_set=(), horizon=9, check=timing),
     ]
-    for vn, v in variants.items():
-        gens.append(dict(name="gen_" + vn, depth=depth - 1, report_set=(), horizon=9, **v))
+    c.cov["exhaustive"] = True
     for g in gens:
         st = pc.gen_replay(c, "C06", binp, u="A", **g)
         nrep += st["replayed"]
